@@ -255,7 +255,10 @@ func (c *Ctx) callWith(fr *Frame, st *State, reach string, com *ssa.CallCommon, 
 	}
 	// dynamic call through a function value: callback field?
 	if key := callbackKey(com.Value); key != "" {
-		if ct := c.w.contracts["callback "+key]; ct != nil {
+		if ct := c.w.callbackContract(key); ct != nil {
+			if _, aliased := c.w.callbackAlias["callback "+key]; aliased {
+				c.depsUsed["function-valued parameter "+key+": every caller is assumed to pass a value satisfying the callback contract "+ct.Name+" (refinement at the passing site not checked)"] = true
+			}
 			fv := c.val(fr, com.Value)
 			if sc, ok := fv.(Sc); ok {
 				c.oblige("nil", "", reach, fmt.Sprintf("(not (= %s 0))", sc.T), pos, exprText(com.Value)+" != nil (function value)")
@@ -282,10 +285,37 @@ func shortFn(fn *ssa.Function) string {
 	return n
 }
 
+// callbackContract resolves a callback key (through `dep callback A = B` aliases) to its contract.
+func (w *World) callbackContract(key string) *Contract {
+	k := "callback " + key
+	for i := 0; i < 4; i++ {
+		if a, ok := w.callbackAlias[k]; ok {
+			k = a
+			continue
+		}
+		break
+	}
+	return w.contracts[k]
+}
+
 // callbackKey names a function-valued struct field: "jpeg.jpegReader.ExifReader".
 func callbackKey(v ssa.Value) string {
+	if p, ok := v.(*ssa.Parameter); ok && p.Parent() != nil {
+		return shortFn(p.Parent()) + "." + p.Name()
+	}
 	u, ok := v.(*ssa.UnOp)
 	if !ok || u.Op != token.MUL {
+		return ""
+	}
+	if a, ok := u.X.(*ssa.Alloc); ok && a.Parent() != nil {
+		// a function-valued parameter (spilled to a local in naive form): "isobmff.readCMTBox.exifReader"
+		for _, p := range a.Parent().Params {
+			if p.Name() == a.Comment {
+				if _, isFn := p.Type().Underlying().(*types.Signature); isFn {
+					return shortFn(a.Parent()) + "." + p.Name()
+				}
+			}
+		}
 		return ""
 	}
 	fa, ok := u.X.(*ssa.FieldAddr)
@@ -646,11 +676,21 @@ type modLoc struct {
 	elem   types.Type
 	stream string // reader ref
 	all    bool
+	foreign string // "foreign": every component that does not belong to this package (types/unexported variables of the package are encapsulated)
 }
 
 func (c *Ctx) resolveMod(env *CEnv, m Clause) modLoc {
 	if m.Text == "*" {
 		return modLoc{all: true}
+	}
+	if m.Text == "foreign" {
+		if env.pkg == nil {
+			cerr("modifies foreign: no package context (write foreign(pkg))")
+		}
+		return modLoc{foreign: relPkg(env.pkg.Path())}
+	}
+	if strings.HasPrefix(m.Text, "foreign(") && strings.HasSuffix(m.Text, ")") {
+		return modLoc{foreign: strings.TrimSpace(m.Text[8 : len(m.Text)-1])}
 	}
 	switch e := m.Expr.(type) {
 	case *ast.CallExpr:
@@ -788,6 +828,8 @@ func (c *Ctx) havocLoc(st *State, l modLoc, reach string) {
 	switch {
 	case l.all:
 		c.havocAll(st, reach)
+	case l.foreign != "":
+		c.havocForeign(st, l.foreign, reach)
 	case l.stream != "":
 		for _, g := range streamGhosts {
 			key := "ghost." + g.name
@@ -812,7 +854,7 @@ func (c *Ctx) havocLoc(st *State, l modLoc, reach string) {
 	case l.whole:
 		c.leafKeys(l.keyPfx, l.t, func(key, srt string) {
 			c.heapGet(st, key, srt)
-			st.heap[key] = c.fresh("H", "(Array Int "+srt+")")
+			st.heap[key] = c.freshHeap("(Array Int "+srt+")")
 		}, func(key string, at *types.Array) {
 			c.havocMemOfElem(st, at.Elem())
 		})
@@ -929,4 +971,64 @@ func ghostType(s string) types.Type {
 		}
 	}
 	return nil
+}
+
+// ownedKey: does the heap / element-memory component key belong to package pkg (a field of one of its types, one of its
+// unexported package variables)? Code outside the package cannot write such a component except through the package's own
+// functions (unexported fields / variables; no unsafe, no reflection - an assumption recorded in the evidence).
+func ownedKey(k, pkg string) bool {
+	k = strings.TrimPrefix(k, "ghost.")
+	if strings.HasPrefix(k, pkg+".") {
+		return true
+	}
+	if strings.HasPrefix(k, "G:") {
+		g := strings.TrimPrefix(k, "G:")
+		if i := strings.LastIndex(g, "."); i >= 0 && strings.HasSuffix(g[:i], "/"+pkg) {
+			name := g[i+1:]
+			if j := strings.IndexAny(name, ".#"); j >= 0 {
+				name = name[:j]
+			}
+			return name != "" && !(name[0] >= 'A' && name[0] <= 'Z')
+		}
+	}
+	return false
+}
+
+// havocForeign forgets every component that package pkg does not own: what a callback from another package may change.
+// Stream identity, length and buffer size (immutable attributes of a reader object) are kept; positions are not.
+func (c *Ctx) havocForeign(s *State, pkg string, reach string) {
+	c.touchAll(s)
+	c.depsUsed["callbacks/foreign code: fields of types of package "+pkg+" and its unexported variables are written only by the package itself (language-level encapsulation; no unsafe/reflect)"] = true
+	oldU8 := s.mem["uint8"]
+	for k := range s.heap {
+		if strings.HasPrefix(k, "ghost.const.") || k == "ghost.lim" || k == "ghost.sid" || k == "ghost.bsize" || k == "ghost.data" {
+			continue
+		}
+		if ownedKey(k, pkg) {
+			continue
+		}
+		s.heap[k] = c.freshHeap(s.hsort[k])
+	}
+	for k := range s.mem {
+		if ownedKey(k, pkg) {
+			continue
+		}
+		s.mem[k] = c.fresh("M", s.hsort["M:"+k])
+	}
+	if oldU8 != "" && s.mem["uint8"] != oldU8 {
+		for _, v := range s.views {
+			c.assume("true", fmt.Sprintf("(= (select %s %s) (select %s %s))", s.mem["uint8"], v, oldU8, v))
+		}
+	}
+	// components first touched later: unknown (fresh generation), except that owned ones keep theirs
+	np := map[string]int{}
+	for k, v := range s.pgen {
+		np[k] = v
+	}
+	if _, ok := np["own!"+pkg]; !ok {
+		np["own!"+pkg] = s.gen
+	}
+	s.pgen = np
+	s.gen = newGen()
+	c.bumpTop()
 }
